@@ -24,7 +24,11 @@ BaseTexts(L) ==
       singles == [j \in 1..Len(W) |-> W[j]]
       pairs == [j \in 1..(Len(W) * Len(W)) |-> W[((j - 1) \div Len(W)) + 1] \o " " \o W[((j - 1) % Len(W)) + 1]]
       rnd == [r \in 1..Params.randn |-> RandText(W, BaseSeps, Start(Seed, 11 + Len(W), r), 3 + (r % (Params.randlen - 2)))]
-  IN (IF Params.pairs THEN singles \o pairs ELSE singles) \o AmbigParts[L] \o rnd
+      \* a text that ends on a closing punctuation mark, nothing after it (whitespace added at the end must not matter)
+      Closers == <<".", "!", "?", ",", ";", ":", "...", ")">>
+      closed == [j \in 1..Len(W) |-> W[j] \o Closers[(j % Len(Closers)) + 1]]
+                \o [r \in 1..Params.randn |-> rnd[r] \o Closers[(r % Len(Closers)) + 1]]
+  IN (IF Params.pairs THEN singles \o pairs ELSE singles) \o AmbigParts[L] \o rnd \o closed
 
 \* ---- case variants ------------------------------------------------------
 CaseVariants(s) == <<s, Upper(s), Alternate(s, TRUE), Alternate(s, FALSE), Capitalise(s)>>
